@@ -176,12 +176,35 @@ def _overwrite(S):
     return st.builds(twice, setters, setters, HOW)
 
 
+def _relink(S):
+    """macro: a link list is filled, emptied by removal and filled again (same owner, same role)"""
+    def build(a, by1, by2, extra):
+        a1 = dict(a, target=a["target"])
+        rm = dict(a, op="unlink", which=0, by=by1)
+        a2 = dict(a, target=a["target"] + 1)
+        out = [a1, rm, a2]
+        if extra:
+            out = [a1, dict(a, target=a["target"] + 1), rm, dict(rm, by=by2), a2]
+        return out
+    return st.builds(build, S["link"], st.sampled_from(["obj", "id", "name", "index"]),
+                     st.sampled_from(["obj", "id"]), st.booleans())
+
+
+def _multi_append(S):
+    """macro: the same array grown several times in a row (interleaved handles under policy 'two')"""
+    def build(a, n2, n3, ax):
+        return [dict(a, n=max(1, a["n"])), dict(a, n=n2, seed=a["seed"] + 1), dict(a, n=n3, seed=a["seed"] + 2, axis=ax)]
+    return st.builds(build, S["append"], st.integers(1, 3), st.integers(1, 2), IDX)
+
+
 def program(enabled, min_size=0, max_size=30, name_pool=None, weights=None):
     """list of ops drawn from the enabled op names (a name may be repeated to weight it)"""
     S = op_strategies(name_pool)
-    alts = [S[n].map(lambda o: [o]) for n in enabled if n != "overwrite"]
-    if "overwrite" in enabled:
-        alts += [_overwrite(S)] * enabled.count("overwrite")
+    MACROS = {"overwrite": _overwrite, "relink": _relink, "multi_append": _multi_append}
+    alts = [S[n].map(lambda o: [o]) for n in enabled if n not in MACROS]
+    for mname, mk in MACROS.items():
+        if mname in enabled:
+            alts += [mk(S)] * enabled.count(mname)
     return st.lists(st.one_of(alts), min_size=min_size, max_size=max_size).map(
         lambda chunks: [o for ch in chunks for o in ch][:max_size * 2])
 
